@@ -60,7 +60,11 @@ def confirm(pid, n):
             "demo_package": pkg, "demo_run": run}
     try:
         dst = os.path.join(wt, pkg, "zz_demo_test.go")
-        shutil.copy(demo, dst)
+        copied = []
+        for f in sorted(os.listdir(src + "/demo")):          # a demo may consist of several test files
+            if f.endswith("_test.go"):
+                t = os.path.join(wt, pkg, f if f != demos[0] else "zz_demo_test.go")
+                shutil.copy(src + "/demo/" + f, t); copied.append(t)
         cmd = "go test %s-vet=off -count=1 -run '%s' ./%s/" % (flags, run, pkg)
         conf["demo_cmd"] = "cp demo/zz_demo_test.go <repo>/%s/ && cd <repo> && %s" % (pkg, cmd)
         rc, out = sh(cmd, wt)
@@ -90,7 +94,7 @@ def confirm(pid, n):
             if rc == 0:
                 return "demo does not fail on the patched tree", conf
         conf["patched_demo_tail"] = "\n".join(out.splitlines()[-6:])[-800:]
-        os.remove(dst)
+        for t in copied: os.remove(t)
         missing = baseline_ok(wt)
         conf["baseline_tests_not_passing_with_patch"] = missing
         if missing:
